@@ -136,6 +136,7 @@ func casesIterative(c *caseCtx) {
 		}
 	}
 	fmt.Printf("halts=%d immediate=%d\n", halts, early)
+	haltTerminalRoots("C15")
 
 	// unbounded analyses that must end by themselves: forced mates, seen by a quiescence that looks beyond
 	// the horizon (TUROCHAMP's considerable moves include mating moves), so that a mate score can appear
@@ -229,4 +230,104 @@ func casesIterative(c *caseCtx) {
 		close(in)
 	}
 	fmt.Printf("COUNT uciclock %d\n", nclk)
+
+	// `go depth 0` asks for no depth limit, whatever the engine's default depth option says: no answer
+	// before stop, one after it; `go depth 1` / `go depth 3` end by themselves at that depth
+	for _, deflt := range []uint{0, 2} {
+		e := engine.New(ctx, "t", "t", search.AlphaBeta{Eval: search.Leaf{Eval: eval.Material{}}}, engine.WithOptions(engine.Options{Depth: deflt}))
+		in := make(chan string, 4)
+		_, out := uci.NewDriver(ctx, e, in)
+		lines := make(chan string, 1000)
+		go func() {
+			for l := range out {
+				lines <- l
+			}
+			close(lines)
+		}()
+		waitBest := func(d time.Duration) (bool, int) {
+			deadline := time.After(d)
+			maxDepth := 0
+			for {
+				select {
+				case l, ok := <-lines:
+					if !ok {
+						return false, maxDepth
+					}
+					if strings.HasPrefix(l, "info depth ") {
+						var dd int
+						fmt.Sscanf(l, "info depth %d", &dd)
+						if dd > maxDepth {
+							maxDepth = dd
+						}
+					}
+					if strings.HasPrefix(l, "bestmove") {
+						return true, maxDepth
+					}
+				case <-deadline:
+					return false, maxDepth
+				}
+			}
+		}
+		in <- "position startpos"
+		in <- "go depth 0"
+		if got, _ := waitBest(400 * time.Millisecond); got {
+			fmt.Printf("IMPLVIOL ucidepth default=%d :: `go depth 0` (no depth limit) was answered without stop prop=C15 key=depth0-ends\n", deflt)
+		} else {
+			in <- "stop"
+			if got, _ := waitBest(10 * time.Second); !got {
+				fmt.Printf("IMPLVIOL ucidepth default=%d :: `go depth 0` + stop was not answered prop=C15 key=depth0-unanswered\n", deflt)
+			}
+		}
+		for _, d := range []int{1, 3} {
+			in <- fmt.Sprintf("go depth %d", d)
+			got, maxd := waitBest(30 * time.Second)
+			if !got || maxd != d {
+				fmt.Printf("IMPLVIOL ucidepth default=%d :: `go depth %d` ended=%v at depth %d prop=C15 key=depth-limit\n", deflt, d, got, maxd)
+			}
+		}
+		close(in)
+	}
+}
+
+// haltTerminalRoots: halting an analysis of a root that has no legal move (stalemate, checkmate) or a
+// single one, with and without a depth limit: Halt must return (within a watchdog), whatever the principal
+// variations look like, and the engine must be usable afterwards. prop tags the property being checked.
+func haltTerminalRoots(prop string) {
+	ctx := context.Background()
+	n := 0
+	for _, f := range []string{"7k/5Q2/6K1/8/8/8/8/8 b - - 0 1", "k7/P7/1K6/8/8/8/8/8 b - - 0 1", "7k/6Q1/6K1/8/8/8/8/8 b - - 0 1", "8/8/8/8/8/5k2/5p2/5K2 w - - 0 1", fen.Initial} {
+		for _, name := range []string{"morlock", "turochamp"} {
+			for _, wait := range []time.Duration{0, 20 * time.Millisecond} {
+				e, _ := bundledEngine(ctx, name, 0, 0, 0, false, 1)
+				if err := e.Reset(ctx, f); err != nil {
+					continue
+				}
+				before := e.Position()
+				out, err := e.Analyze(ctx, searchctl.Options{})
+				if err != nil {
+					continue
+				}
+				go func() {
+					for range out {
+					}
+				}()
+				time.Sleep(wait)
+				done := make(chan struct{})
+				go func() {
+					_, _ = e.Halt(ctx)
+					close(done)
+				}()
+				n++
+				select {
+				case <-done:
+					if after := e.Position(); after != before {
+						fmt.Printf("IMPLVIOL halt %s %s :: the engine game changed across analyse + halt: %s prop=%s key=halt-changes-game\n", name, f, after, prop)
+					}
+				case <-time.After(5 * time.Second):
+					fmt.Printf("IMPLVIOL halt %s %s wait=%v :: Halt did not return within 5s for an analysis without depth limit prop=%s key=halt-hangs\n", name, f, wait, prop)
+				}
+			}
+		}
+	}
+	fmt.Printf("COUNT halt-terminal-roots %d\n", n)
 }
